@@ -331,7 +331,7 @@ def tok_replace(text, log, rule="RX", frm=None, to=None, **kw):
 
 
 # --- RS: replace one whole statement, found by its leading tokens, by a trusted stand-in (always listed) ----
-def rs_stmt_replace(text, log, prefix=None, to="", rule="RS", **kw):
+def rs_stmt_replace(text, log, prefix=None, to="", rule="RS", to_end=None, **kw):
     want = [x[1] for x in Src(prefix).toks if x[0] not in ("ws", "comment")]
     s = Src(text)
     for p in range(len(s) - len(want) + 1):
@@ -341,6 +341,10 @@ def rs_stmt_replace(text, log, prefix=None, to="", rule="RS", **kw):
                 if s.kind(q) == "open":
                     q = s.closer(q)
                 q += 1
+            if to_end:
+                # everything from this statement to the end of the body is replaced (trusted tail)
+                log.hit(rule)
+                return text[:s.start(p)] + to + "\n"
             if q >= len(s):
                 raise Undecided("RS: statement `%s` has no terminator" % prefix)
             log.hit(rule)
@@ -404,7 +408,198 @@ def ra_await(text, log, **kw):
     return _fix(text, step, log, "RA")
 
 
+# --- R3o: `res.map(|p| B).ok()` — the `.ok()` tells the receiver is a Result -----------------------------------
+def r3_result_map_ok(text, log, **kw):
+    def step(t):
+        s = Src(t)
+        for p in _find_method(s, "map"):
+            c = s.closer(p + 2)
+            if not (s.is_(c + 1, ".") and s.is_(c + 2, "ok") and s.is_(c + 3, "(") and s.closer(c + 3) == c + 4):
+                continue
+            cl = _closure(s, p + 2)
+            if not cl:
+                continue
+            pat, blo, bhi, _ = cl
+            if _has_return(s, blo, bhi):
+                raise Undecided("R3: closure body contains `return`")
+            r = receiver_start(s, p)
+            recv = s.slice(r, p - 1)
+            body = s.slice(blo, bhi)
+            repl = "(match %s { Ok(%s) => Some(%s), Err(_) => None })" % (recv, pat, body)
+            return _edit(t, s, r, c + 4, repl)
+        return None
+    return _fix(text, step, log, "R3")
+
+
+# --- R3f: Option<Option<T>>::flatten -> match ---------------------------------------------------------------
+def r3_flatten(text, log, **kw):
+    def step(t):
+        s = Src(t)
+        for p in _find_method(s, "flatten", nargs_empty=True):
+            r = receiver_start(s, p)
+            recv = s.slice(r, p - 1)
+            repl = "(match (%s) { Some(vx_inner) => vx_inner, None => None })" % recv
+            return _edit(t, s, r, p + 3, repl)
+        return None
+    return _fix(text, step, log, "R3")
+
+
+# --- R4f: `it.filter_map(|p| B).collect()` -> loop pushing the Some results ---------------------------------------
+def r4_filter_map_collect(text, log, out="vx_out", **kw):
+    def step(t):
+        s = Src(t)
+        for p in _find_method(s, "filter_map"):
+            c = s.closer(p + 2)
+            if not (s.is_(c + 1, ".") and s.is_(c + 2, "collect") and s.is_(c + 3, "(") and s.closer(c + 3) == c + 4):
+                continue
+            cl = _closure(s, p + 2)
+            if not cl:
+                continue
+            pat, blo, bhi, _ = cl
+            if _has_return(s, blo, bhi):
+                raise Undecided("R4: closure body contains `return`")
+            r = receiver_start(s, p)
+            recv = s.slice(r, p - 1)
+            body = s.slice(blo, bhi)
+            repl = ("{ let mut %s = Vec::new();\nfor %s in %s {\nmatch %s { Some(vx_some) => { %s.push(vx_some); } None => {} }\n}\n%s }"
+                    % (out, pat, recv, body, out, out))
+            return _edit(t, s, r, c + 4, repl)
+        return None
+    return _fix(text, step, log, "R4")
+
+
+# --- R3r: Result adapters with closures (on request, when the receiver is a Result) -----------------------------------
+def r3_result(text, log, **kw):
+    def step(t):
+        s = Src(t)
+        for name in ("map_err", "and_then", "map"):
+            for p in _find_method(s, name):
+                cl = _closure(s, p + 2)
+                if not cl:
+                    continue
+                pat, blo, bhi, _ = cl
+                if _has_return(s, blo, bhi):
+                    raise Undecided("R3: closure body contains `return`")
+                r = receiver_start(s, p)
+                recv = s.slice(r, p - 1)
+                body = s.slice(blo, bhi)
+                if name == "map_err":
+                    repl = "(match %s { Ok(vx_ok) => Ok(vx_ok), Err(%s) => Err(%s) })" % (recv, pat, body)
+                elif name == "and_then":
+                    repl = "(match %s { Ok(%s) => %s, Err(vx_err) => Err(vx_err) })" % (recv, pat, body)
+                else:
+                    repl = "(match %s { Ok(%s) => Ok(%s), Err(vx_err) => Err(vx_err) })" % (recv, pat, body)
+                return _edit(t, s, r, s.closer(p + 2), repl)
+        return None
+    return _fix(text, step, log, "R3")
+
+
+# --- R4i: `x.into_iter().for_each(|p| B)` -> `for p in x { B }` -----------------------------------------------------
+def r4_into_iter_for_each(text, log, **kw):
+    def step(t):
+        s = Src(t)
+        for p in _find_method(s, "for_each"):
+            if not s.seq(p - 4, ".", "into_iter", "(", ")"):
+                continue
+            cl = _closure(s, p + 2)
+            if not cl:
+                continue
+            pat, blo, bhi, is_block = cl
+            if _has_return(s, blo, bhi):
+                raise Undecided("R4: closure body contains `return`")
+            body = s.slice(blo, bhi)
+            inner = body[1:-1] if is_block else " " + body + "; "
+            d = p - 4
+            r = receiver_start(s, d)
+            recv = s.slice(r, d - 1)
+            return _edit(t, s, r, s.closer(p + 2), "for %s in %s {\n%s\n}" % (pat, recv, inner))
+        return None
+    return _fix(text, step, log, "R4")
+
+
+# --- R13: crossbeam `select! { send(TX, ITEM) -> RES => A, default => B }` -> match on a modelled non-blocking send ----
+def r13_select_send(text, log, **kw):
+    s = Src(text)
+    for p in range(len(s) - 2):
+        if s.txt(p) == "select" and s.is_(p + 1, "!") and s.kind(p + 2) == "open":
+            o = p + 2
+            c = s.closer(o)
+            # send ( TX , ITEM ) -> RES => BODY1 , default => BODY2
+            if not (s.is_(o + 1, "send") and s.is_(o + 2, "(")):
+                raise Undecided("R13: select! arm shape")
+            sc = s.closer(o + 2)
+            from .extract import _split_top
+            args = _split_top(s, o + 3, sc)
+            if len(args) != 2 or not s.is_(sc + 1, "->") or not s.is_(sc + 3, "=>"):
+                raise Undecided("R13: select! send arm shape")
+            resname = s.txt(sc + 2)
+            b1 = sc + 4
+            if not (s.kind(b1) == "open" and s.txt(b1) == "{"):
+                raise Undecided("R13: select! send arm body must be a block")
+            b1c = s.closer(b1)
+            q = b1c + 1
+            if s.is_(q, ","):
+                q += 1
+            if not (s.is_(q, "default") and s.is_(q + 1, "=>")):
+                raise Undecided("R13: select! default arm expected")
+            b2 = q + 2
+            if not (s.kind(b2) == "open" and s.txt(b2) == "{"):
+                raise Undecided("R13: select! default arm body must be a block")
+            b2c = s.closer(b2)
+            item = args[1].strip()
+            repl = "match (%s).vx_select_send(%s) { SelectSend::Completed(%s) => %s, SelectSend::WouldBlock(%s) => %s }" % (
+                args[0].strip(), item, resname, s.slice(b1, b1c), item, s.slice(b2, b2c))
+            log.hit("R13")
+            return text[:s.start(p)] + repl + text[s.end(c):]
+    return text
+
+
+# --- R3m: Result::map_or_else(|e| A, |v| B) -> match ---------------------------------------------------------------
+def r3_map_or_else(text, log, **kw):
+    def step(t):
+        s = Src(t)
+        for p in _find_method(s, "map_or_else"):
+            o = p + 2
+            c = s.closer(o)
+            if not s.is_(o + 1, "|"):
+                continue
+            # first closure: |pat| body up to the top-level comma
+            q = o + 2
+            while not s.is_(q, "|"):
+                q += 1
+            pat1 = s.slice(o + 2, q - 1)
+            k = q + 1
+            while k < c and not s.is_(k, ","):
+                if s.kind(k) == "open":
+                    k = s.closer(k)
+                k += 1
+            body1 = s.slice(q + 1, k - 1)
+            if not s.is_(k + 1, "|"):
+                continue
+            q2 = k + 2
+            while not s.is_(q2, "|"):
+                q2 += 1
+            pat2 = s.slice(k + 2, q2 - 1)
+            e2 = c - 1
+            if s.is_(e2, ","):
+                e2 -= 1
+            body2 = s.slice(q2 + 1, e2)
+            r = receiver_start(s, p)
+            recv = s.slice(r, p - 1)
+            repl = "(match %s { Ok(%s) => %s, Err(%s) => %s })" % (recv, pat2, body2, pat1, body1)
+            return _edit(t, s, r, c, repl)
+        return None
+    return _fix(text, step, log, "R3")
+
+
 RULES = {
+    "R13": r13_select_send,
+    "R3m": r3_map_or_else,
+    "R3o": r3_result_map_ok,
+    "R3f": r3_flatten,
+    "R4f": r4_filter_map_collect,
+    "R3r": r3_result,
+    "R4i": r4_into_iter_for_each,
     "RA": ra_await,
     "R3e": r3_map_err,
     "RF": rf_format,
@@ -428,8 +623,12 @@ def apply_rules(body, extra=()):
     log = Log()
     text = body
     _counter[0] = 0
+    for name, kw in extra:
+        if kw.get("when") == "first":
+            text = RULES[name](text, log, **{k: v for k, v in kw.items() if k != "when"})
     for name in DEFAULT_ORDER:
         text = RULES[name](text, log)
     for name, kw in extra:
-        text = RULES[name](text, log, **kw)
+        if kw.get("when") != "first":
+            text = RULES[name](text, log, **kw)
     return text, log.hits
